@@ -7,8 +7,15 @@
 //   cfg32 <init> <hex> <hex> ...      -> "<pieces chained from init: the very first calls of the process> <one call over
 //   cfg64 ...                              the concatenation from init> <the same call again>"
 //   cfgsmall32 / cfgsmall64 ...       -> the same through crc32_small.c / crc64_small.c
-#include "hproto.h"
+// Batch ops (many per process), used for the sweeps over lengths x alignments x high-bit contents:
+//   cfga32 <align> <init> <hex>       -> "<generic entry (or public if absent)> <arch entry (or public)> <public>
+//   cfga64 ...                             <public over two pieces split at size/2>"
+#include "c14_util.h"
 
+uint32_t h_crc32_generic(const uint8_t *, size_t, uint32_t);
+uint32_t h_crc32_arch(const uint8_t *, size_t, uint32_t);
+uint64_t h_crc64_generic(const uint8_t *, size_t, uint64_t);
+uint64_t h_crc64_arch(const uint8_t *, size_t, uint64_t);
 uint32_t h_crc32_public(const uint8_t *, size_t, uint32_t);
 uint64_t h_crc64_public(const uint8_t *, size_t, uint64_t);
 uint32_t h_small32(const uint8_t *, size_t, uint32_t);
@@ -26,6 +33,23 @@ int main(void)
 	hp_line l = {0};
 	while (hp_next(&l)) {
 		const char *op = l.tok[0];
+		if ((!strcmp(op, "cfga32") || !strcmp(op, "cfga64")) && l.ntok == 4) {
+			size_t n; void *base;
+			uint8_t *p = hex_aligned_exact(l.tok[3], &n, (size_t)hp_u64(l.tok[1]), &base);
+			uint64_t init = hp_u64(l.tok[2]);
+			size_t h = n / 2;
+			if (op[4] == '3') {
+				uint32_t pc = h_crc32_public(p + h, n - h, h_crc32_public(p, h, (uint32_t)init));
+				printf("%" PRIu32 " %" PRIu32 " %" PRIu32 " %" PRIu32 "\n", h_crc32_generic(p, n, (uint32_t)init),
+						h_crc32_arch(p, n, (uint32_t)init), h_crc32_public(p, n, (uint32_t)init), pc);
+			} else {
+				uint64_t pc = h_crc64_public(p + h, n - h, h_crc64_public(p, h, init));
+				printf("%" PRIu64 " %" PRIu64 " %" PRIu64 " %" PRIu64 "\n", h_crc64_generic(p, n, init),
+						h_crc64_arch(p, n, init), h_crc64_public(p, n, init), pc);
+			}
+			free(base);
+			continue;
+		}
 		int small = !strncmp(op, "cfgsmall", 8);
 		const char *wd = small ? op + 8 : (!strncmp(op, "cfg", 3) ? op + 3 : "");
 		if ((strcmp(wd, "32") && strcmp(wd, "64")) || l.ntok < 2) { printf("bad-op\n"); continue; }
